@@ -808,6 +808,41 @@ def run(tier):
             record(spec, f'from reader bounds={bounds}', {}, img, fl)
             counts['from_reader'] = counts.get('from_reader', 0) + 1
 
+    # --- 3b. the reader statistics themselves (sarpy/io/complex/utils.py): the extrema and the mean of the finite magnitudes of a region do
+    #         not depend on the block size used to scan it, whatever blocks consist of NaN / Inf only
+    from sarpy.io.complex.utils import get_data_extrema, get_data_mean_magnitude
+    for _ in range(6 if quick else 60):
+        shape = (rng.randrange(3, 9), rng.randrange(12, 40))
+        data = (g.lognormal(rng.uniform(-2, 4), 1.0, shape) * numpy.exp(1j * g.uniform(0, 6.28, shape))).astype('complex64')
+        c0 = rng.choice([0, 0, rng.randrange(1, shape[1] - 6)])
+        c1 = min(shape[1] - 1, c0 + rng.randrange(3, 9))
+        data[:, c0:c1] = rng.choice([numpy.nan, numpy.inf, complex(numpy.nan, 1.0)])         # a strip without any finite pixel
+        data[rng.randrange(shape[0]), rng.randrange(shape[1])] = 0
+        reader = make_reader(data)
+        bounds = (0, shape[0], 0, shape[1])
+        mag = numpy.abs(data.astype('complex128'))
+        fin = mag[numpy.isfinite(mag)]
+        want = (float(fin.min()), float(fin.max()))
+        pos = fin[fin > 0]
+        want_mean = float(pos.mean())
+        for bs in (8 * shape[0] * 1, 8 * shape[0] * 2, 8 * shape[0] * 5, 10 ** 9):
+            evaluations += 1
+            counts['reader_stats_block_sizes'] = counts.get('reader_stats_block_sizes', 0) + 1
+            try:
+                with Quiet():
+                    got = get_data_extrema(bounds, reader, 0, bs)
+                    gm = get_data_mean_magnitude(bounds, reader, 0, bs)
+            except Exception as e:
+                record({'cls': 'reader-statistics'}, f'block_size_in_bytes={bs}', {}, data,
+                       [{'check': 'exception', 'key': '', 'msg': f'reader statistics raised {type(e).__name__}: {e}', 'stats': {'nan_strip': [c0, c1], 'block_size_in_bytes': bs}}])
+                continue
+            ok = got[0] is not None and got[1] is not None and abs(float(got[0]) - want[0]) <= 1e-6 * max(1.0, want[0]) and abs(float(got[1]) - want[1]) <= 1e-6 * want[1]
+            if not ok or not abs(gm - want_mean) <= 1e-5 * want_mean:
+                record({'cls': 'reader-statistics'}, f'block_size_in_bytes={bs}', {}, data,
+                       [{'check': 'reader-statistics', 'key': '', 'stats': {'nan_strip': [c0, c1], 'block_size_in_bytes': bs},
+                         'msg': f'get_data_extrema / get_data_mean_magnitude over a {shape[0]} x {shape[1]} region with columns {c0}:{c1} non-finite, scanned with block_size_in_bytes={bs}: '
+                                f'extrema {got}, mean {gm}; the finite magnitudes have min / max {want}, mean of the positive ones {want_mean}'}])
+
     # --- 4. correspondence for what is still queued
     flush()
     traces = state['traces']
